@@ -353,37 +353,52 @@ func runC07_10(c *core.Ctx) {
 				}
 				return true
 			})
+			const collected = 8 // earlier iterations stored their object in a local container that this function still owns
 			au := &flow.Auto{Start: sNone}
-			au.Node = func(b *flow.Block, i int, n ast.Node, s int) int {
+			au.Node = func(b *flow.Block, i int, n ast.Node, st int) int {
+				s, col := st&7, st&collected
 				if n == a.stmt {
-					return sHeld
-				}
-				if s == sOwned || s == sHeld {
-					if closesObj(n) || handsOver(n) {
-						return sSafe
+					if s == sOwned && len(containers) > 0 {
+						col = collected
 					}
-					if e, ok := n.(ast.Expr); ok && rangeCloses[e] {
-						return sSafe
-					}
+					return sHeld | col
 				}
-				return s
+				if closesObj(n) && (s == sOwned || s == sHeld) {
+					s = sSafe
+				}
+				if handsOver(n) {
+					return sSafe
+				}
+				if e, ok := n.(ast.Expr); ok && rangeCloses[e] {
+					if s == sOwned || s == sHeld {
+						s = sSafe
+					}
+					col = 0
+				}
+				return s | col
 			}
-			au.Edge = func(e *flow.Edge, s int) int {
+			au.Edge = func(e *flow.Edge, st int) int {
+				s, col := st&7, st&collected
 				if s == sHeld && e.Cond != nil && e.Tag == nil {
 					if x, y, op, ok := flow.Cmp(e.Cond); ok && flow.IsNil(f.Info, y) && flow.ObjOf(f.Info, x) == a.errObj {
 						if (op == token.NEQ) == e.Sense {
-							return sNone // creation failed: nothing to close
+							return sNone | col // creation failed: nothing new to close
 						}
-						return sOwned
+						return sOwned | col
 					}
 				}
-				return s
+				return st
 			}
 			sol := g.Run(au)
 			bad := token.NoPos
 			sol.AtExit(func(b *flow.Block, _ uint64) {
-				st := sol.Out(b)
-				if st&(1<<sOwned) == 0 {
+				owned := false
+				for _, st := range flow.States(sol.Out(b)) {
+					if st&7 == sOwned || st&collected != 0 {
+						owned = true
+					}
+				}
+				if !owned {
 					return
 				}
 				r := b.Return
